@@ -106,6 +106,16 @@ pub trait Harness {
 	}
 }
 
+/// A worker stops exploring (reported as a cap) when its resident set exceeds this.
+pub const RSS_CAP_BYTES: u64 = 2_500_000_000;
+
+fn rss_bytes() -> u64 {
+	std::fs::read_to_string("/proc/self/statm")
+		.ok()
+		.and_then(|s| s.split_whitespace().nth(1).and_then(|p| p.parse::<u64>().ok()))
+		.map_or(0, |pages| pages * 4096)
+}
+
 /// Wall-clock limit for ONE execution (normally 10 us - 1 ms).
 pub const HANG_LIMIT_S: u64 = 20;
 
@@ -249,6 +259,7 @@ pub fn worker_main<H: Harness>(h: &H, args: &Args) -> WorkerResult {
 		}
 	}
 	let sample_stride = (mine.len() / 3).max(1);
+	let mut visited: u64 = 0;
 	'passes: for label in &labels {
 		let mut pr = PassReport { label: label.clone(), ..Default::default() };
 		for (pos, i) in mine.iter().enumerate() {
@@ -273,6 +284,7 @@ pub fn worker_main<H: Harness>(h: &H, args: &Args) -> WorkerResult {
 			let sc_hash = explore::hash_strs([&sc_json.to_string(), label]);
 			let mut run_err: Option<String> = None;
 			let mut first_log: Option<Vec<String>> = None;
+			let mut rss_capped = false;
 			let stop = explore::dfs(
 				&cfg,
 				&mut st,
@@ -299,6 +311,11 @@ pub fn worker_main<H: Harness>(h: &H, args: &Args) -> WorkerResult {
 				}},
 				|o| explore::hash_strs(o.log.iter()),
 				|ex, _plen| {
+					visited += 1;
+					if visited % 8192 == 0 && rss_bytes() > RSS_CAP_BYTES {
+						rss_capped = true;
+						return Visit::Halt;
+					}
 					let fp = explore::hash_strs(ex.out.log.iter()) ^ sc_hash;
 					seen.insert(fp);
 					if ex.out.nontrivial {
@@ -342,7 +359,14 @@ pub fn worker_main<H: Harness>(h: &H, args: &Args) -> WorkerResult {
 			match stop {
 				Stop::Complete => pr.scenarios_complete += 1,
 				Stop::Capped => res.capped = true,
-				Stop::Halted => {}
+				Stop::Halted => {
+					if rss_capped {
+						res.capped = true;
+						res.counters.insert("rss_cap_hit".into(), 1);
+						res.passes.push(pr);
+						break 'passes;
+					}
+				}
 				Stop::Machinery(m) => {
 					res.machinery = Some(format!("scenario {sc_json} [{label}]: {m}"));
 					break 'passes;
